@@ -211,6 +211,8 @@ def role_table(ctx, chk, rule, q, best, worst):
     def norm(t):
         # a bound method that is called is a method call; so is Class.method(obj, ...) when no subclass overrides the method
         def g(x):
+            if x[0] == "apply" and len(x) == 4 and x[1][0] == "call" and x[1][1] == "getattr" and len(x[1][2]) == 2 and is_const(x[1][2][1]) and isinstance(x[1][2][1][1], str):
+                return ("mcall", x[1][2][0], x[1][2][1][1], x[2], x[3])          # getattr(obj, "name")(...) is obj.name(...)
             if x[0] == "apply" and len(x) == 4 and x[1][0] == "attr":
                 if x[1][1][0] == "v" and x[1][1][1] in ctx.prog.classes:
                     cname, m = x[1][1][1], x[1][2]
